@@ -106,13 +106,16 @@ func main() {
 	if err != nil {
 		rep.Broken("listen: %v", err)
 	}
-	go http.Serve(ln, http.HandlerFunc(func(w http.ResponseWriter, r *http.Request) {
+	// (no keep-alive: every loaded block has its own transport, whose idle connections would otherwise pile up)
+	backend := &http.Server{Handler: http.HandlerFunc(func(w http.ResponseWriter, r *http.Request) {
 		if r.URL.Path == "/api/missing" {
 			http.NotFound(w, r)
 			return
 		}
 		fmt.Fprintf(w, "backend %s", r.URL.Path)
-	}))
+	})}
+	backend.SetKeepAlivesEnabled(false)
+	go backend.Serve(ln)
 	defer ln.Close()
 	fsock := filepath.Join(base, "f.sock")
 	fln, err := net.Listen("unix", fsock)
